@@ -25,6 +25,7 @@ CONSTANTS
   Depth = 0
   Export = FALSE
   SetWeight = 1
+  RareWeight = 1
   Setter = "by_reference"
 INVARIANT ObjectInv
 CONSTRAINT Bound
